@@ -1271,6 +1271,203 @@ def judge_intpack(inp, obs, lr):
     return None
 
 
+# ------------------------------------------------------------------------------------------------
+# G12 magnitudes / G13 entry points / G15 refusals for the helpers
+# ------------------------------------------------------------------------------------------------
+def exact_sphere(P):
+    """exact centre and squared radius (Fractions) of the sphere through the float points P (rows)"""
+    P = [[F(float(x)) for x in r] for r in P]
+    d = len(P) - 1
+    T = [[P[i + 1][k] - P[0][k] for k in range(d)] for i in range(d)]
+    rhs = [sum(x * x for x in T[i]) / 2 for i in range(d)]
+    Ti = L.inv(T)
+    c = [sum(Ti[i][j] * rhs[j] for j in range(d)) for i in range(d)]
+    return [c[i] + P[0][i] for i in range(d)], sum(x * x for x in c)
+
+
+def gen_magn(rng, n):
+    made = 0
+    while made < n:
+        fn = rng.choice(["gs", "gs", "find", "sphere", "sphere", "circle", "circle", "diag"])
+        if fn in ("gs", "find"):
+            p, q = rng.choice(SIGS)
+            nn = p + q
+            B, _ = fform(rng, p, q)
+            k = rng.randint(1, nn)
+            rows = np.array([[rng.gauss(0, 1) for _ in range(nn)] for _ in range(k)])
+            G = rows @ B @ rows.T
+            mins = [np.linalg.det(G[:j, :j]) for j in range(1, k + 1)]
+            if min(abs(x) for x in [mins[0]] + [mins[j] / mins[j - 1] for j in range(1, k)]) < 0.05 or np.linalg.cond(rows) > 1e3:
+                continue
+            # each row is a vector of arbitrary size; the form may be rescaled as a whole
+            rs = [10.0 ** rng.randint(-9, 9) if rng.random() < 0.7 else 1.0 for _ in range(k)]
+            fs = 10.0 ** rng.randint(-6, 6) if rng.random() < 0.5 else 1.0
+            made += 1
+            yield {"fn": fn, "sig": [p, q], "B": (B * fs).tolist(), "rows": (rows * np.array(rs)[:, None]).tolist(), "rowscale": rs, "formscale": fs,
+                   "force_oriented": rng.random() < 0.5}
+        elif fn in ("sphere", "circle"):
+            d = 2 if fn == "circle" else rng.choice([1, 2, 3, 4])
+            T = np.array([[rng.gauss(0, 1) for _ in range(d)] for _ in range(d + 1)]) * rng.choice([1.0, 1.0, 10.0, 1e-3])
+            if np.linalg.cond(T[1:] - T[0]) > 50:
+                continue
+            far = 10.0 ** rng.randint(0, 8) if rng.random() < 0.8 else 0.0
+            u = np.array([rng.gauss(0, 1) for _ in range(d)])
+            P = T + far * u / np.linalg.norm(u)
+            made += 1
+            yield {"fn": fn, "d": d, "pts": P.tolist(), "far": far, "stack": rng.random() < 0.3}
+        else:
+            nn = rng.randint(1, 5)
+            q = rng.randint(0, nn)
+            B, dvals = fform(rng, nn - q, q)
+            fs = 10.0 ** rng.randint(-6, 6)
+            made += 1
+            yield {"fn": fn, "B": (B * fs).tolist(), "formscale": fs, "signs": [1 if x > 0 else -1 for x in dvals],
+                   "mode": rng.choice(["signed", "minkowski"]), "reverse": rng.random() < 0.5}
+
+
+def run_magn(inp):
+    fn = inp["fn"]
+    if fn in ("gs", "find"):
+        B = np.array(inp["B"])
+        rows = np.array(inp["rows"])
+        if fn == "gs":
+            U = utils.indefinite_orthogonalize(B, rows.copy())
+        else:
+            U = utils.find_isometry(B, rows.copy(), inp["force_oriented"])
+        Ul, Bl = U.astype(np.longdouble), B.astype(np.longdouble)
+        G = np.asarray(Ul @ Bl @ Ul.T, dtype=float)
+        k = rows.shape[0]
+        flag = max([max(span_dist(U[:j], rows[:j]), span_dist(rows[:j], U[:j])) for j in range(1, k + 1)])
+        # (G13) find_isometry and indefinite_orthogonalize agree on the prescribed rows
+        V = utils.indefinite_orthogonalize(B, rows.copy())
+        twin = float(max(min(np.max(np.abs(U[i] - V[i])), np.max(np.abs(U[i] + V[i]))) / (1 + np.max(np.abs(V[i]))) for i in range(k)))
+        return {"off": float(np.max(np.abs(G - np.diag(np.diag(G))))), "diag": float(np.max(np.abs(np.abs(np.diag(G)) - 1))), "flag": flag, "twin": twin,
+                "det": float(np.linalg.det(U * (abs(inp["formscale"]) ** 0.5))) if fn == "find" else None, "shape": list(U.shape)}
+    if fn in ("sphere", "circle"):
+        P = np.array(inp["pts"])
+        Pin = np.stack([P, P[::-1]]) if inp["stack"] else P
+        cs, rs_ = utils.sphere_through(Pin.copy())
+        out = {}
+        if fn == "circle":
+            cc, rc = utils.circle_through(Pin[..., 0, :].copy(), Pin[..., 1, :].copy(), Pin[..., 2, :].copy())
+            out["twin"] = float(max(np.max(np.abs(np.asarray(cc) - np.asarray(cs))), np.max(np.abs(np.asarray(rc) - np.asarray(rs_)))))
+            c, r = (np.asarray(cc)[0], float(np.asarray(rc)[0])) if inp["stack"] else (np.asarray(cc), float(rc))
+        else:
+            c, r = (np.asarray(cs)[0], float(np.asarray(rs_)[0])) if inp["stack"] else (np.asarray(cs), float(rs_))
+        ce, r2 = exact_sphere(P)
+        out.update(cdev=float(max(abs(F(float(x)) - y) for x, y in zip(c, ce))), rdev=abs(r - math.sqrt(float(r2))), r=math.sqrt(float(r2)),
+                   scale=float(np.max(np.abs(P))), cond=float(np.linalg.cond(P[1:] - P[0])))
+        return out
+    B = np.array(inp["B"])
+    W, Wi = utils.diagonalize_form(B.copy(), order_eigenvalues=inp["mode"], reverse=inp["reverse"])
+    Wl = W.astype(np.longdouble)
+    G = np.asarray(Wl.T @ B.astype(np.longdouble) @ Wl, dtype=float)
+    return {"off": float(np.max(np.abs(G - np.diag(np.diag(G))))), "diag": float(np.max(np.abs(np.abs(np.diag(G)) - 1))),
+            "signs": np.sign(np.diag(G)).astype(int).tolist(), "inv": float(np.max(np.abs(W @ Wi - np.eye(len(B)))))}
+
+
+def judge_magn(inp, obs, lr):
+    fn = inp["fn"]
+    tags = {"fn": fn, "magnitude": True}
+    if "exc" in obs:
+        return {"expected": "a result (valid input of unusual size)", "observed": obs, "tags": dict(tags, exc=obs["exc"])}
+    if fn in ("gs", "find"):
+        tags.update(rowscale=[int(round(math.log10(x))) for x in inp["rowscale"]], formscale=int(round(math.log10(inp["formscale"]))))
+        if not (obs["off"] <= 1e-7 and obs["diag"] <= 1e-7):
+            return {"expected": "rows of any size come back mutually orthogonal with square-norm ±1", "observed": obs, "tags": dict(tags, residual=True)}
+        if not obs["flag"] <= 1e-6:
+            return {"expected": "same flag of spans", "observed": obs["flag"], "tags": dict(tags, flag=True)}
+        if not obs["twin"] <= 1e-9:
+            return {"expected": "find_isometry and indefinite_orthogonalize agree on the prescribed rows (up to sign)", "observed": obs["twin"],
+                    "tags": dict(tags, entry_points=True)}
+        if fn == "find" and inp["force_oriented"] and not obs["det"] > 0:
+            return {"expected": "positive determinant on request", "observed": obs["det"], "tags": dict(tags, orientation=True)}
+        return None
+    if fn in ("sphere", "circle"):
+        tags.update(far=inp["far"])
+        # clean-tree accuracy: the points are translated to the first one before solving, so the error is that of representing the
+        # coordinates (eps·|p|) amplified by the conditioning of the translated system
+        tol = 1e-13 * obs["scale"] * max(1.0, obs["cond"]) * (1 + obs["r"]) + 1e-9 * (1 + obs["r"])
+        if not (obs["cdev"] <= tol and obs["rdev"] <= tol):
+            return {"expected": f"centre and radius of the exact circumsphere (tolerance {tol:.2e})", "observed": obs, "tags": dict(tags, residual=True)}
+        if obs.get("twin", 0) > 2 * tol:
+            return {"expected": "circle_through agrees with sphere_through on the same points", "observed": obs, "tags": dict(tags, entry_points=True)}
+        return None
+    tags.update(formscale=int(round(math.log10(inp["formscale"]))), mode=inp["mode"], reverse=inp["reverse"])
+    if not (obs["off"] <= 1e-8 and obs["diag"] <= 1e-8 and obs["inv"] <= 1e-8):
+        return {"expected": "WᵀBW = diag(±1), W·Winv = 1 for a form of any overall size", "observed": obs, "tags": dict(tags, residual=True)}
+    if obs["signs"] != expected_signs(inp["signs"], inp["mode"], inp["reverse"]):
+        return {"expected": expected_signs(inp["signs"], inp["mode"], inp["reverse"]), "observed": obs["signs"], "tags": dict(tags, order=True)}
+    return None
+
+
+def gen_refuse(rng, n):
+    for _ in range(n):
+        kind = rng.choice(["sphere_count", "kernel_mismatch", "kernel_mismatch2", "kernel_match2", "svd_flags", "kernel_twin"])
+        yield {"kind": kind, "seed": rng.randint(0, 10 ** 9)}
+
+
+def run_refuse(inp):
+    r = np.random.default_rng(inp["seed"])
+    kind = inp["kind"]
+
+    def attempt(f):
+        try:
+            return {"returned": True, "value": f()}
+        except Exception as e:
+            return {"returned": False, "exc": type(e).__name__}
+    if kind == "sphere_count":
+        d = int(r.integers(1, 5))
+        k = int(r.choice([x for x in range(1, d + 4) if x != d + 1]))
+        return attempt(lambda: [np.asarray(x).shape for x in utils.sphere_through(r.normal(size=(k, d)))])
+
+    def ranked(rk, m, nn):
+        A = np.zeros((m, nn))
+        for i in range(rk):
+            A[i, i] = r.uniform(0.5, 2)
+        q1, _ = np.linalg.qr(r.normal(size=(m, m)))
+        q2, _ = np.linalg.qr(r.normal(size=(nn, nn)))
+        return q1 @ A @ q2
+    m, nn = 2, 3
+    if kind in ("kernel_mismatch", "kernel_mismatch2", "kernel_match2"):
+        if kind == "kernel_mismatch":
+            ranks = np.array([2, 1, 2])
+        elif kind == "kernel_mismatch2":
+            ranks = np.array([[2, 1], [2, 1]]) if r.random() < 0.5 else np.array([[2, 2], [1, 2]])     # the first row/column alone looks uniform
+        else:
+            ranks = np.array([[1, 1], [1, 1]]) * int(r.integers(0, 3))
+        A = np.array([ranked(int(k), m, nn) for k in ranks.reshape(-1)]).reshape(ranks.shape + (m, nn))
+        res = attempt(lambda: list(utils.kernel(A).shape))
+        res["want_shape"] = list(ranks.shape) + [nn, nn - int(ranks.flat[0])]
+        return res
+    if kind == "svd_flags":
+        return attempt(lambda: numerical.svd_kernel(ranked(1, m, nn), assume_full_rank=True, matching_rank=False))
+    # (G13) utils.kernel is numerical.svd_kernel
+    A = np.array([ranked(int(r.integers(0, 3)), m, nn)])
+    K1, K2 = np.asarray(utils.kernel(A.copy())), np.asarray(numerical.svd_kernel(A.copy()))
+    ok = K1.shape == K2.shape and (K1.size == 0 or (span_dist(K1[0].T, K2[0].T) <= 1e-8 and span_dist(K2[0].T, K1[0].T) <= 1e-8))
+    return {"returned": True, "value": bool(ok)}
+
+
+def judge_refuse(inp, obs, lr):
+    kind = inp["kind"]
+    tags = {"kind": kind, "refusal": True}
+    if "exc" in obs and "returned" not in obs:
+        return {"expected": "the harness step to run", "observed": obs, "tags": dict(tags, exc=obs["exc"])}
+    must_raise = {"sphere_count": "GeometryError", "kernel_mismatch": "ValueError", "kernel_mismatch2": "ValueError", "svd_flags": "ValueError"}
+    if kind in must_raise:
+        if obs["returned"] or obs["exc"] != must_raise[kind]:
+            return {"expected": f"{must_raise[kind]} (documented refusal)", "observed": {k: str(v)[:100] for k, v in obs.items()}, "tags": tags}
+        return None
+    if not obs["returned"]:
+        return {"expected": "valid input accepted", "observed": obs, "tags": dict(tags, spurious_refusal=True)}
+    if kind == "kernel_match2" and obs["value"] != obs["want_shape"]:
+        return {"expected": obs["want_shape"], "observed": obs["value"], "tags": dict(tags, dimension=True)}
+    if kind == "kernel_twin" and not obs["value"]:
+        return {"expected": "utils.kernel and numerical.svd_kernel return bases of the same space", "observed": obs, "tags": dict(tags, entry_points=True)}
+    return None
+
+
 CLAUSES = [
     Clause("gs_corr", "corr", gen_gs, run_gs, judge_gs, lean=lean_gs, site="utils.indefinite_orthogonalize",
            budget={"quick": 160, "thorough": 4000},
@@ -1308,6 +1505,12 @@ CLAUSES = [
     Clause("svd_options_oracle", "oracle", gen_svdopt, run_svdopt, judge_svdopt, site="numerical.svd_kernel",
            budget={"quick": 200, "thorough": 5000},
            what="svd_kernel(assume_full_rank=True) and svd_kernel(matching_rank=False, with_dimensions, with_loc) on batches of mixed rank incl. trivial kernels: per-rank bases annihilated, orthonormal, n − rank columns"),
+    Clause("magnitude_oracle", "oracle", gen_magn, run_magn, judge_magn, site="utils helpers (magnitudes, twin entry points)",
+           budget={"quick": 400, "thorough": 10000},
+           what="G12/G13: rows scaled by 10^k (k = −9..9) and forms by 10^k (k = −6..6) through indefinite_orthogonalize / find_isometry / diagonalize_form (Gram in long double); well-shaped simplices centred up to 1e8 from the origin through sphere_through / circle_through against the exact (Fraction) circumsphere; circle_through = sphere_through; find_isometry = indefinite_orthogonalize on the prescribed rows. Not scaled: the matrix given to kernel (its 1e-8 singular-value tolerance is documented as absolute)"),
+    Clause("refusal_oracle", "oracle", gen_refuse, run_refuse, judge_refuse, site="utils helpers (documented refusals, twins)",
+           budget={"quick": 120, "thorough": 2000},
+           what="G15/G13: sphere_through with the wrong number of points raises GeometryError; kernel of a batch of mixed rank (one or two batch axes, incl. batches whose first row looks uniform) raises ValueError, uniform batches are accepted with the right shape; contradictory svd_kernel flags raise ValueError; utils.kernel = numerical.svd_kernel"),
     Clause("int_packaging_oracle", "oracle", gen_intpack, run_intpack, judge_intpack, site="utils helpers (integer arrays / nested lists of ints)",
            budget={"quick": 400, "thorough": 10000},
            what="every helper on integer-valued data given as int64 / int32 arrays and nested lists of Python ints: where the library accepts the packaging the answer equals the float64 answer (a refusal is tolerated only where it never accepted it; a silently different answer never)"),
